@@ -17,7 +17,7 @@ import math
 import z3
 from . import xreal as xr
 from .xreal import X
-from .numexec import NumExec, Num, Bool, Obj, Unsupported, Path
+from .numexec import NumExec, Num, Bool, Obj, Unsupported, Path, raised_name
 
 Ref = z3.DeclareSort("Ref")
 Str = z3.DeclareSort("Str")
@@ -908,8 +908,7 @@ class HeapExec(NumExec):
                 out += s.block([b], n.orelse) if n.orelse else [(b, None)]
             return out
         if isinstance(n, ast.Raise):
-            exc = n.exc.func if isinstance(n.exc, ast.Call) else n.exc
-            return [(p, ("raise", exc.id if isinstance(exc, ast.Name) else ast.unparse(exc)))]
+            return [(p, ("raise", raised_name(n, p.env)))]
         if isinstance(n, ast.For):
             return s.for_loop(p, n)
         if isinstance(n, ast.While):
